@@ -64,7 +64,7 @@ func shapeOracle(o *Out, input string) {
 	if shapeCalls%4 == 0 || len(input) < 12 {
 		budgets := []uint64{1, 2, 7, 100, 517, 5000, 1 << 40, 1 << 63, ^uint64(0)}
 		b := budgets[shapeCalls/4%len(budgets)]
-		for _, opts := range [][]bexpr.Option{
+		for oi, opts := range [][]bexpr.Option{
 			{bexpr.WithMaxExpressions(b)},
 			{bexpr.WithMaxExpressions(b), bexpr.WithTagName("json"), bexpr.WithUnknownValue(nil)},
 			{nil, bexpr.WithHookFn(nil), bexpr.WithMaxExpressions(0)},
@@ -87,7 +87,23 @@ func shapeOracle(o *Out, input string) {
 			if err2 == nil && cerr != nil {
 				o.finding(Finding{Property: "C10", Kind: "failing-input", What: "an option makes CreateEvaluator accept a string it otherwise rejects", Request: fmt.Sprintf("parse %d %s", b, hx(input))})
 			}
+			// … and under a budget, too, the error text is the parser's
+			eb := b
+			if oi == 2 {
+				eb = 0
+			}
+			if want := realParseMsg(eb, []byte(input)); err2 != nil && err2.Error() != "panic" && want != "err "+hx(err2.Error()) {
+				what := fmt.Sprintf("CreateEvaluator's error text under budget %d differs from grammar.Parse's: %q", eb, err2.Error())
+				o.finding(Finding{Property: "C10", Kind: "failing-input", What: what, Request: fmt.Sprintf("parsemsg %d %s", eb, hx(input))})
+				o.finding(Finding{Property: "C15", Kind: "failing-input", What: what, Request: fmt.Sprintf("parsemsg %d %s", eb, hx(input))})
+			}
 		}
+	}
+	// CreateEvaluator hands the parser's error through unchanged: same text as grammar.Parse
+	if perr != nil && cerr != nil && perr.Error() != cerr.Error() {
+		what := fmt.Sprintf("CreateEvaluator's error text differs from grammar.Parse's: %q vs %q", cerr.Error(), perr.Error())
+		o.finding(Finding{Property: "C10", Kind: "failing-input", What: what, Request: "parsemsg 0 " + hx(input)})
+		o.finding(Finding{Property: "C15", Kind: "failing-input", What: what, Request: "parsemsg 0 " + hx(input)})
 	}
 	if (perr == nil) != (cerr == nil) {
 		o.finding(Finding{Property: "C10", Kind: "failing-input", What: "Parse and CreateEvaluator disagree on acceptance", Request: "parse 0 " + hx(input)})
@@ -166,6 +182,9 @@ func emitParse(o *Out, max uint64, input string) string {
 	publicCross(o, max, input)
 	ans := realParse(max, []byte(input))
 	o.emit(fmt.Sprintf("parse %d %s", max, hx(input)), ans)
+	// the exact text of the error (positions, farthest failure, expected list, de-duplication):
+	// answered by the model's `errorText`
+	o.emit(fmt.Sprintf("parsemsg %d %s", max, hx(input)), realParseMsg(max, []byte(input)))
 	switch {
 	case strings.HasPrefix(ans, "ok"):
 		o.count("parse:accepted")
